@@ -116,3 +116,24 @@ func init() {
 		Real:       ufsReal, Stub: ufsStub,
 		ProbeNames: []string{"read-at-or-past-eof", "read-ending-exactly-at-eof", "write-past-eof", "read-spanning-3+-messages", "readn-spanning-messages", "written-spanning-messages"}})
 }
+
+func init() {
+	reg(&propCfg{ID: "C15", QuickRuns: 2500, QuickSecs: 40, ThoroughRuns: 100000, ThoroughSecs: 780, Chunk: 25,
+		RuleNote:   "C15: directories of 0, 1, 2, 3, 7, 50 (thorough also 1000 and 3000) entries with name lengths 1..255 (so entry sizes vary), files and subdirectories, msize 256..64 KiB, both dialects. Five strata by run index: a fixed count enumerated from the largest entry size up to about three entries; random counts per read; a listing abandoned after 1..3 replies and restarted at offset 0; the client's Readdir(0) and Readdir(n); a count smaller than the first entry. Every Rread payload is split into whole records by the independent stat decoder and the concatenated listing is compared with os.ReadDir.",
+		Real:       ufsReal, Stub: ufsStub,
+		ProbeNames: []string{"fixed-count-listing", "restart-at-zero-mid-listing", "client-readdir", "count-too-small"}})
+}
+
+func init() {
+	reg(&propCfg{ID: "C16", QuickRuns: 1500, QuickSecs: 40, ThoroughRuns: 60000, ThoroughSecs: 780, Chunk: 20,
+		RuleNote:   "C16: random trees of 5..40 entries nested up to 3, 8 or 40 levels (names with spaces, non-ASCII bytes, dots, 255-byte names; files, directories, symlinks incl. dangling ones, hard links). Stratum 'raw-walks': 10..40 walks per run from an existing start point by a name list of which a prefix exists (suffix 'missing', prefix 'missing-first', up to 16 elements), to a new fid or in place; number of qids, error iff the first element is missing, qid type/path against os.Lstat, then Tstat of source fid and new fid decide where they point; stat fields (name, permission bits, DMDIR/DMSYMLINK, length, mtime, qid, symlink target) against os.Lstat; one qid path never names two different files. Stratum 'client-paths': FStat of every object through the client (deep paths split into several Twalks).",
+		Real:       ufsReal, Stub: ufsStub,
+		ProbeNames: []string{"partial-walk", "partial-walk-in-place", "walk-first-missing", "client-walk-split-into-several-twalks"}})
+}
+
+func init() {
+	reg(&propCfg{ID: "C17", QuickRuns: 1200, QuickSecs: 40, ThoroughRuns: 50000, ThoroughSecs: 780, Chunk: 20,
+		RuleNote:   "C17: a random tree (3..25 entries: files, directories, symlinks, hard links) is created twice; 8..30 (thorough ..80) mutations drawn against the current state — create of a file with each open mode +-OTRUNC followed by a write through the new fid, of a directory, symlink (also dangling) and hard link, write to an existing file, remove of files and of empty and non-empty directories, wstat rename to free and occupied names, truncate to 0..beyond size, chmod, mtime — are applied through raw 9P requests to tree A and with the os package to twin B; after every step the trees are compared recursively (names, kinds, permission bits, contents, link targets, link counts), error replies must leave A unchanged (create, remove) and carry the errno of the POSIX failure in 9P2000.u, and Tstat on the fid after create/rename must name the new object. Create over an existing name may either fail or behave like a non-exclusive open.",
+		Real:       ufsReal, Stub: ufsStub,
+		ProbeNames: []string{"create-error", "remove-error", "rename", "truncate", "chmod", "set-mtime", "symlink-create", "hardlink-create"}})
+}
